@@ -14,6 +14,9 @@ CHECKS = {
  "C16": ("exploration", "bounded exhaustive enumeration of packed k-mers and rolling windows against a string-level model",
          "Complete for k<=11 (13 thorough); for every k and width all strings within Hamming distance 2 of six backgrounds isolate each 2-bit lane, mask and shift constant; rolling state is compared with the model and a from-scratch object at every window, with N at every position.",
          "Packing convention (A,C,T,G = 0..3, first letter most significant) restated independently in the harness.", "DESIGN.md §5 C16"),
+ "C03": ("exploration", "bounded exhaustive enumeration of planted-SNP sample sets (site subsets on a boundary-exact grid x allele assignments x orientations x contig layouts), real build+align vs planted truth",
+         "The grid places sites exactly (k-1)/2 from contig ends and exactly (k-1)/2+1 apart, so the boundary cases of the premise are hit in every subset; all allele assignments for 2..4 samples, 10-sample patterns, orientations and contig layouts (incl. a contig of length exactly k) are enumerated for 7 (thorough: 30) values of k. The premise is re-checked by the model on the derived samples so a case outside it is never judged.",
+         "End-to-end through build_and_merge, MergeSkaArray::new, apply_filters and write_fasta in-process, plus CLI routes for names-from-filenames.", "DESIGN.md §5 C03"),
  "C04": ("model_checking", "bounded exhaustive exploration of the alignment writer's operation sequences (every subset of matched centres per reference layout) on the real code, oracle = literal three-way definition",
          "The writer is an incremental state machine whose corner cases depend on gap lengths relative to k and on contig switches; every subset of matched centres over all single/pair/triple contig layouts with lengths around k drives it through every reachable call sequence, and every run is the real RefSka::new+map+write_aln compared with the model. Level B enumerates every reference string up to length 7/8 and structured repeat/short-contig/N/case references.",
          "Samples are forged dictionaries (public build_from_array); one forked child per run; contig lengths and k bounded (k=5,7).", "DESIGN.md §5 C04"),
